@@ -39,6 +39,7 @@ func propC15(w *World, r *Report) {
 	r.Floor("cursoradvance", 1)
 	RunRecordEffect(w, r)
 	RunLigPrefix(w, r)
+	RunLigCondition(w, r)
 }
 
 func checkFindLookups(w *World, r *Report) {
@@ -745,4 +746,67 @@ func RunLigPrefix(w *World, r *Report) {
 	}
 	r.OK("ligprefix", key, w.Pos(bestPos), fmt.Sprintf("%d sequences, none a proper prefix of a later one", len(seqs)))
 	r.Floor("ligprefix", 1)
+}
+
+// RunLigCondition: sfnt.Read gives a font without GSUB the standard
+// f-ligatures when the font is proportional.  "Proportional" is a statement
+// about the advance widths; the flag in the post table is only a hint that
+// real fonts get wrong.  The call of standardLigatures must therefore be
+// decided by (*Font).IsFixedPitch — computed from the widths — and by
+// nothing that comes from the post table.
+func RunLigCondition(w *World, r *Report) {
+	r.Rule("ligcondition: in sfnt.Read the call of standardLigatures is control-dependent on the result of (*Font).IsFixedPitch (computed from the advance widths) being false, and on no condition that reads the post table's data")
+	fn := w.Func("sfnt.Read")
+	if fn == nil {
+		r.Fatal("sfnt.Read does not resolve")
+		return
+	}
+	key := r.MkKey("ligcondition", "sfnt.Read", "call of standardLigatures")
+	var call *ssa.Call
+	for _, b := range fn.Blocks {
+		for _, in := range b.Instrs {
+			if c, ok := in.(*ssa.Call); ok {
+				if cal := c.Call.StaticCallee(); cal != nil && cal.Name() == "standardLigatures" {
+					call = c
+				}
+			}
+		}
+	}
+	if call == nil {
+		r.Fail("ligcondition", key, w.Pos(fn.Pos()), "sfnt.Read does not call standardLigatures", nil)
+		r.Floor("ligcondition", 1)
+		return
+	}
+	conds := controlConds(fn)[call.Block()]
+	byWidths := false
+	bad := ""
+	for _, c := range conds {
+		sl := backSlice(c)
+		for v := range sl {
+			cc, ok := v.(*ssa.Call)
+			if !ok {
+				continue
+			}
+			if cal := cc.Call.StaticCallee(); cal != nil && fnName(cal) == "(*sfnt.Font).IsFixedPitch" {
+				byWidths = true
+			}
+		}
+		for v := range sl {
+			// anything loaded from a *post.Info
+			if fa, ok := v.(*ssa.FieldAddr); ok {
+				if strings.Contains(fa.X.Type().String(), "/post.Info") {
+					bad = "a condition of the call reads " + fieldName(fa) + " of the post table"
+				}
+			}
+		}
+	}
+	switch {
+	case bad != "":
+		r.Fail("ligcondition", key, w.Pos(call.Pos()), bad+": whether a font is proportional is decided by its advance widths; with a stale isFixedPitch flag a proportional font gets no ligatures", nil)
+	case !byWidths:
+		r.Fail("ligcondition", key, w.Pos(call.Pos()), "the call of standardLigatures does not depend on (*Font).IsFixedPitch", nil)
+	default:
+		r.OK("ligcondition", key, w.Pos(call.Pos()), "decided by IsFixedPitch (advance widths)")
+	}
+	r.Floor("ligcondition", 1)
 }
